@@ -109,6 +109,12 @@ WHO_GENERATED = {
 }
 
 
+def allowed_mode(mode, allowed):
+    """A method that may write a field may also hand out `&mut field` to a helper (the helper's own
+    accesses are attributed to the method separately); nothing else is implied."""
+    return mode in allowed or (mode == "mutborrow" and "write" in allowed)
+
+
 def check_who_runtime(ctx, prog):
     from .rules_runtime import helper_roots
     util = prog.crate("lexgen_util")
@@ -129,7 +135,7 @@ def check_who_runtime(ctx, prog):
                 counts[f] = counts.get(f, 0) + 1
                 for root in sorted(helpers[name]):
                     rshort = root.split("::")[-1]
-                    ok = rshort not in CT and mode in WHO_RUNTIME.get(f, {}).get(rshort, ())
+                    ok = rshort not in CT and allowed_mode(mode, WHO_RUNTIME.get(f, {}).get(rshort, ()))
                     ctx.ob("R-WHO", "lexgen_util::%s (helper of %s) may %s field %s" % (
                         name, root, mode, f), ok,
                         key="R-WHO:lexgen_util::%s:%s:%s" % (root, f, mode), where=span,
@@ -145,7 +151,7 @@ def check_who_runtime(ctx, prog):
                 ok = False      # constructors build the struct with an aggregate, no field access
                 why = "constructors do not access fields of an existing lexer"
             else:
-                ok = is_method and mode in WHO_RUNTIME.get(f, {}).get(short, ())
+                ok = is_method and allowed_mode(mode, WHO_RUNTIME.get(f, {}).get(short, ()))
                 why = "allowed accessors of `%s`: %s" % (
                     f, {k: sorted(v) for k, v in WHO_RUNTIME.get(f, {}).items()})
             ctx.ob("R-WHO", "lexgen_util::%s may %s field %s" % (name, mode, f), ok,
@@ -159,7 +165,9 @@ def check_who_runtime(ctx, prog):
                 rv = st.get("rv")
                 if rv and rv["k"] == "agg" and rv["kind"].get("agg") == "adt" and \
                         rv["kind"]["adt"] in ("Lexer", "lexgen_util::Lexer"):
-                    ok = (name.startswith("Lexer::") and short in CT) or \
+                    ctor_helper = name in helpers and helpers[name] and all(
+                        r.split("::")[-1] in CT + ("new", "new_from_iter") for r in helpers[name])
+                    ok = (name.startswith("Lexer::") and short in CT) or ctor_helper or \
                         (b["from_expansion"] and "Clone" in name)
                     ctx.ob("R-WHO", "lexgen_util::%s may construct a Lexer value" % name, ok,
                            key="R-WHO:lexgen_util::%s:construct" % name, where=bb.get("span"))
